@@ -41,7 +41,9 @@ def run(tier):
         p["ops"].append({"op": "liftlog"})
         programs.append(p)
     import shapes
-    for p, model in shapes.programs(ck, rng, "c14-shape", thorough, 20000 if thorough else 800, x0=len(programs)):
+    for k, (p, model) in enumerate(shapes.programs(ck, rng, "c14-shape", thorough, 20000 if thorough else 800, x0=len(programs))):
+        if k % 5 == 4:
+            p["ops"][0]["twr"] = True
         p["ops"].append({"op": "liftlog"})
         programs.append(p)
     trace, abnormal = runner.run_programs(programs, seed=C.seed(), tag="c14")
